@@ -13,7 +13,7 @@ EXTRACT = ["FDS", "C04R"]
 BINS = ["c04r"]
 NEEDS_CICADA = True
 ALLOWED_AXIOMS = []
-PINNED = ["C04_full", "C04_holds", "C04_sinks", "C04_builtin_sinks", "C04_builtin_probe", "C04_unopenable", "C04_parse", "C04_parse_from", "C04_parse_from_attached", "C04_shell_unaffected"]
+PINNED = ["C04_full", "C04_holds", "C04_sinks", "C04_builtin_sinks", "C04_builtin_probe", "C04_captured_builtin_full", "C04_captured_builtin_refuted", "C04_captured_builtin_partial", "Known_C04", "C04_unopenable", "C04_parse", "C04_parse_from", "C04_parse_from_attached", "C04_shell_unaffected"]
 TRUSTED = R.TRUSTED
 ASSUMES = R.ASSUMES + ["file contents: create/truncate/append are observed on the real binary (L2), the model records the open mode only"]
 WEIGHTS = {"builtin": 0.15, "notfound": 0.03, "here": 0.12, "from": 0.15, "redir": 0.9, "maxredir": 4, "capture": 0.1,
